@@ -52,6 +52,7 @@ type Result struct {
 	Extra      map[string]int  `json:"extra,omitempty"`
 	Slots      int             `json:"slots,omitempty"`       // C20: crash slots executed
 	Exhaustive bool            `json:"exhaustive,omitempty"`
+	Cases      int             `json:"cases,omitempty"` // distinct non-trivial cases this result stands for (default 1)
 }
 
 func (r *Result) Violate(sig, detail string) {
